@@ -294,6 +294,11 @@ func validateBSONValue(kind byte, b []byte) (int, error) {
 		if n < 0 || n > len(b)-5 {
 			return 0, errors.New("binary value does not fit")
 		}
+		if b[4] > 0x05 && b[4] < 0x80 {
+			// birch refuses these when it parses an embedded document lazily,
+			// and it does so by panicking
+			return 0, errors.New("invalid binary subtype")
+		}
 		return 5 + n, nil
 	case 0x06, 0x0A, 0xFF, 0x7F: // undefined, null, min key, max key
 		return 0, nil
